@@ -21,7 +21,13 @@ def fut_state(f):
 def state_desc(st):
     if st[0] in ("pending", "cancelled"):
         return [st[0]]
-    return [st[0], desc(st[1])]
+    d = desc(st[1])
+    return [st[0], d if not (isinstance(d, str) and d.startswith("<")) else _scrub_repr(st[1])]
+
+
+def _scrub_repr(x):
+    import re
+    return re.sub(r"0x[0-9a-fA-F]+", "0x?", repr(x))[:60]
 
 
 class StackRun(object):
